@@ -241,6 +241,7 @@ bool ops_repl(World &w, const Op &o) {
     }
     // userdata delivered exactly as exported
     std::sort(exported.begin(), exported.end()); std::sort(imported.begin(), imported.end());
+    if (markup_exported(w, exported)) r.count("probe.xml_plain_userdata_with_markup_through_nolibxml");
     if (!(exported == imported)) {
       std::string d1 = "exported " + std::to_string(exported.size()) + " records, imported " + std::to_string(imported.size());
       for (size_t i = 0; i < std::min(exported.size(), imported.size()); i++) if (!(exported[i] == imported[i])) { d1 += "; first difference: gp " + std::to_string(exported[i].gp) + " name '" + exported[i].name + "' len " + std::to_string(exported[i].bytes.size()) + " -> gp " + std::to_string(imported[i].gp) + " name '" + imported[i].name + "' len " + std::to_string(imported[i].bytes.size()); break; }
